@@ -12,6 +12,7 @@ import (
 	"fmt"
 	"os"
 	"sort"
+	"strings"
 	"strconv"
 	"time"
 )
@@ -121,6 +122,17 @@ func main() {
 		}
 		fmt.Printf("%d obligations (%.1fs)\n", len(obs), time.Since(start).Seconds())
 		os.Exit(code)
+	case "props":
+		// the rule list of every property, one line each (used by tools/props_of.py)
+		var ids []string
+		for id := range properties {
+			ids = append(ids, id)
+		}
+		sort.Strings(ids)
+		for _, id := range ids {
+			fmt.Printf("%s: %s\n", id, strings.Join(properties[id].Rules, " "))
+		}
+		return
 	case "classes":
 		// prints, per rule, the clause classes that produce obligations on the tree at -repo (the reference for
 		// expected_classes.json; regenerate on the clean tree only)
